@@ -46,6 +46,9 @@ var classes = []classDef{
 	{"Pt", "", []string{"x", "y"}, []string{"any", "any"}},
 	{"Pt3", "Pt", []string{"x", "y", "z"}, []string{"any", "any", "any"}},
 	{"Bx", "", []string{"v"}, []string{"Int"}},
+	// a subclass that overrides an attribute getter with a method: an object pattern reads attributes
+	// through the getter of the value's run-time class
+	{"PtO", "Pt", []string{"x", "y"}, []string{"any", "any"}},
 }
 
 func classByName(n string) *classDef {
@@ -83,6 +86,9 @@ end
 class Bx
   attr v: Int
   init(@v); end
+end
+class PtO < Pt
+  pure def y: any then :ovr
 end
 const C_INT = 7
 const C_STR = "foo"
